@@ -34,6 +34,7 @@ def run(ctx):
         ctx.guard(tokenizer, ctx, cfg, fs)
         ctx.guard(consumers.accept_sets, ctx, cfg, fs, 'A.accept-sets')
         ctx.guard(strictness, ctx, cfg, fs)
+        ctx.guard(position_carried, ctx, cfg, fs)
         ctx.guard(classes, ctx, cfg, fs)
         ctx.guard(helpflag, ctx, cfg, fs)
         import c06, c08
@@ -185,6 +186,52 @@ def strictness(ctx, cfg, fs):
                 outs.add(show(v))
         ctx.ob('S.strictness', 'parse_pos_word:%s:%s' % (pos, 'right-of-dashes' if strict else 'left-of-dashes'), outs == {expect},
                'parse_pos_word(position=%s) on a word taken from the %s of `--` -> %s (expected %s)' % (pos, 'right' if strict else 'left', sorted(outs), expect), where=b.where(), cfg=cfg)
+
+def position_carried(ctx, cfg, fs):
+    """strictness lives in one field of the positional parser: every method / impl that hands back a ParsePositional built
+    from an existing one (help(), the derived Clone, ..) must carry `position` over - only strict() / non_strict() set it,
+    each to its own constant, and only the constructor starts from Unrestricted"""
+    SETTERS = {'params::ParsePositional::<T>::strict': 'Strict', 'params::ParsePositional::<T>::non_strict': 'NonStrict'}
+    n = 0
+    for p, b in sorted(fs.bodies.items()):
+        if b.kind == 'closure' or not re.match(r'params::ParsePositional<', b.local_ty(0) or '') or b.arg_count < 1:
+            continue
+        if not re.match(r'&?(mut )?params::ParsePositional<', b.local_ty(1) or ''):
+            continue
+        ctx.look(b); n += 1
+        why = []
+        sets = []
+        for i, k, st in b.stmts():
+            if st['k'] == 'assign' and 'position' in place_fields(st['lhs']):
+                rs = provenance(b, st['rv']['op'], i, k, through=None) if st['rv']['k'] == 'use' else []
+                sets += [r.extra.get('variant') if r.kind == 'agg' else '%s:%s' % (r.kind, r.what) for r in rs] or ['?']
+            if st['k'] == 'assign' and st['rv']['k'] == 'agg' and st['rv'].get('adt', '').startswith('params::ParsePositional'):
+                names = st['rv'].get('field_names') or []
+                if 'position' in names:
+                    rs = provenance(b, st['rv']['fields'][names.index('position')], i, k)
+                    if not (rs and all(r.kind == 'param' and r.what == 'self' and r.path == ['position'] for r in rs)):
+                        why.append('builds a new value with position <- %s' % [str(r) for r in rs])
+        if p in SETTERS:
+            if sets != [SETTERS[p]]:
+                why.append('sets position to %s (expected %s)' % (sets, SETTERS[p]))
+        elif sets:
+            why.append('writes position (%s)' % sets)
+        # what is returned: self itself, or the value built above
+        for r in provenance(b, ['cp', [0, []]], *ret_site(b), through=None):
+            if r.kind == 'param' and r.what == 'self' and not r.path:
+                continue
+            if r.kind == 'agg' and r.what.startswith('params::ParsePositional'):
+                continue
+            why.append('returns %s%s' % (r.kind, (' ' + short(r.call.name)) if r.kind == 'call' else ''))
+        ctx.ob('S.strictness', 'carried:%s' % short(p), not why, '%s keeps the strictness of the parser it was given: %s' % (short(p), '; '.join(why) or 'ok'), where=b.where(), cfg=cfg)
+    if n < 3:
+        raise Broken('position_carried: only %d functions returning ParsePositional found' % n)
+
+def ret_site(b):
+    r = b.return_blocks()
+    if not r:
+        raise Broken('%s: no return block' % b.path)
+    return (r[0], 'term')
 
 def classes(ctx, cfg, fs):
     cc = ctx.look(fs.one(r'^error::Message::can_catch$'))
